@@ -169,3 +169,8 @@ func SameFloat(a, b float64) bool {
 // ("still running"). Used around the execution of accepted programs, which may
 // legitimately loop; parse-time code keeps the hard fuel = termination check.
 func SoftFuel(n int) {}
+
+// MapOrder(true): from now on every range over a Go map with 2..3 entries inside
+// origami code takes its iteration order from a symbolic choice (engine only; the
+// native Go runtime randomises by itself).
+func MapOrder(on bool) {}
